@@ -471,6 +471,12 @@ func Translate(job Job, evs []Ev, pinned bool) ([]Label, error) {
 				sendLabel(r, b, false, snap)
 			}
 			delete(encMsg, e.G)
+		case "latewrite":
+			// the transport lets the bytes of this write through and will report it as failed
+			if b := encMsg[e.G]; b != nil {
+				m := map[string]any{"t": b.Msg, "r": t.run(b.Run)}
+				t.emit(Label{"l": "envLate", "m": m}, nil)
+			}
 		case "srvrecv":
 			t.emit(Label{"l": "sRecv", "msg": e.Msg}, nil)
 		case "srvwrite", "srvclose":
